@@ -75,9 +75,29 @@ func (m *C02Monitor) AfterPass(r *Runner, pv *PassView) error {
 	if m.Adoptions > 0 && ownerRev > 0 && ownerRev < m.maxAdopterRev {
 		r.Labels["c02-older-revision-reconciled-after-adoption"] = true
 	}
+	lastReadMissing := map[kubesim.Key]bool{}
+	lastReadRV := map[kubesim.Key]string{}
 	for _, c := range pv.Calls {
+		if c.Actor == "pko" && c.Verb == "get" && c.Key.Group != engine.PKOGroup {
+			lastReadMissing[c.Key] = c.Resp == nil
+			if c.Resp != nil {
+				lastReadRV[c.Key] = engine.RVOf(c.Resp)
+			}
+		}
 		if c.Actor != "pko" || !c.IsWrite() || c.DryRun || c.Err != "" || c.Key.Group == engine.PKOGroup {
 			continue
+		}
+		// the "object is absent, create it" branch is an apply patch: if somebody created the object after the pass looked, the
+		// patch lands on that object without any ownership check. Violations through this window get their own key.
+		createRace := lastReadMissing[c.Key] && c.PatchType == "apply" && c.Pre != nil
+		Violf := func(prop, key, format string, args ...any) *Violation {
+			if createRace {
+				key += ":apply-after-observing-absent"
+			} else if rv, ok := lastReadRV[c.Key]; ok && c.Pre != nil && rv != engine.RVOf(c.Pre) {
+				// somebody (another PKO controller running concurrently) wrote the object after this pass read it
+				key += ":" + c.Verb + "-" + c.PatchType + "-on-stale-read"
+			}
+			return Violf(prop, key, format, args...)
 		}
 		if c.Pre == nil || c.Post == nil {
 			continue // creation / deletion: no handover
